@@ -208,13 +208,20 @@ def _function(d, sa, sm, R):
 
 def _accessor(d, frame, R, params=None):
     """df.meanstress_transform.<method>() -> (amplitude, meanstress) arrays in the frame's row order."""
+    import pandas as pd
     _ms()                                             # registers the accessors
     params = _params(d) if params is None else params
     acc = frame.meanstress_transform
     res = acc.fkm_goodman(params, R) if d[0] == "goodman" else acc.five_segment(params, R)
     out = res.to_pandas()
     if list(out.index) != list(frame.index):
-        raise AssertionError("index of the result differs from the index of the collective")
+        # the same rows in another order are the same collective (the property speaks about cycles, not about row order):
+        # read the result by key
+        if out.index.has_duplicates or sorted(out.index) != sorted(frame.index):
+            raise AssertionError("index of the result differs from the index of the collective")
+        amp = pd.Series(np.asarray(res.amplitude, dtype=float), index=out.index).reindex(frame.index)
+        mean = pd.Series(np.asarray(res.meanstress, dtype=float), index=out.index).reindex(frame.index)
+        return amp.to_numpy(), mean.to_numpy()
     return np.asarray(res.amplitude, dtype=float), np.asarray(res.meanstress, dtype=float)
 
 
@@ -559,6 +566,12 @@ def eval_direct(case, acc=None):
                 r = _guard("interface/collective-per-element-parameters", lambda: _accessor(d, f3, R, pf), viol, mini(cyc=ucyc, ifaces=True)); ev()
                 if r is not None:
                     compare("collective-per-element-parameters", r[0], None, want3, mask3)
+                # the same rows listed cycle-major (elements interleaved: (10,0), (20,0), (10,1), (20,1), ...)
+                perm = [j for pair in itertools.zip_longest(range(half), range(half, n)) for j in pair if j is not None]
+                f3i = f3.iloc[perm]
+                r = _guard("interface/collective-per-element-parameters/rows-interleaved", lambda: _accessor(d, f3i, R, pf), viol, mini(cyc=ucyc, ifaces=True)); ev()
+                if r is not None:
+                    compare("collective-per-element-parameters/rows-interleaved", r[0], None, want3[perm], mask3[perm])
         # HaighDiagram.transform on the frame
         r = _guard("interface/HaighDiagram.transform", lambda: _haigh(d).transform(f1, R), viol, mini(cyc=ucyc, ifaces=True)); ev()
         if r is not None:
